@@ -1,6 +1,7 @@
 package main
 
 import (
+	"context"
 	"bytes"
 	"encoding/json"
 	"flag"
@@ -481,6 +482,9 @@ func cmdCheck(args []string) int {
 				confirmed = true
 			} else if r := results[label]; r == nil {
 				why = "replay-missing " + oneLine(replayErr[h.Meta.PkgDir])
+			} else if v.ID == "terminates" {
+				confirmed = r.TimedOut
+				why = fmt.Sprintf("native run came back: done=%v panic=%q failed=%v (the unwinding bound was too small, or the engine loops where the real code does not)", r.Done, r.Panic, r.Failed)
 			} else if v.ID == "panic" {
 				confirmed = r.Panic != ""
 				why = fmt.Sprintf("native run: done=%v panic=%q failed=%v mismatch=%q", r.Done, r.Panic, r.Failed, r.Mismatch)
@@ -744,6 +748,7 @@ type replayResult struct {
 	Observed []string `json:"observed"`
 	Reached  []string `json:"reached"`
 	Done     bool     `json:"done"`
+	TimedOut bool     `json:"timed_out"`
 }
 
 // runNativeReplay runs the cases in one test binary; when a case kills the
@@ -796,13 +801,25 @@ func runNativeReplay(prop, dir string, cases []replayCase, overlay map[string][]
 			casePath := filepath.Join(wd, fmt.Sprintf("case%d.json", ci))
 			cj, _ := json.Marshal([]replayCase{c})
 			os.WriteFile(casePath, cj, 0o644)
-			cmd := exec.Command(bin, "-test.run", "^TestVerifReplay$", "-test.v", "-test.timeout", "5m")
+			// a `terminates` candidate (failed unwinding assertion) is run under
+			// a deadline: not coming back within it confirms the non-termination
+			deadline := 6 * time.Minute
+			if strings.Contains(c.Label, ":terminates:") {
+				deadline = 60 * time.Second
+			}
+			cctx, cancel := context.WithTimeout(context.Background(), deadline)
+			defer cancel()
+			cmd := exec.CommandContext(cctx, bin, "-test.run", "^TestVerifReplay$", "-test.v", "-test.timeout", "5m")
 			cmd.Dir = filepath.Join(repoDir, dir)
 			cmd.Env = append(append([]string(nil), env...), "VERIF_REPLAY="+casePath)
 			var outb bytes.Buffer
 			cmd.Stdout = &outb
 			cmd.Stderr = &outb
 			runErr := cmd.Run()
+			if cctx.Err() == context.DeadlineExceeded && strings.Contains(c.Label, ":terminates:") {
+				res[ci] = &replayResult{Harness: c.Harness, Label: c.Label, TimedOut: true}
+				return
+			}
 			for _, line := range strings.Split(outb.String(), "\n") {
 				if strings.HasPrefix(line, "VERIF-CASE ") {
 					var r replayResult
